@@ -174,7 +174,7 @@ def _check_path(r, site, cls, spec, kind, cfg, p):
 
 
 # ----------------------------------------------------------------------
-def rule_mx5(ctx: Ctx) -> RuleResult:
+def rule_mx5(ctx: Ctx, heads_only=None) -> RuleResult:
     """MX-5: sandwich head / pipeline / demux; behaviour of the two demux handlers."""
     r = RuleResult("MX-5", "grouping sandwich: head, pipeline, demux(outer) with the head's own Subject")
     demux = ctx.site("rxsci/operators/multiplex.py", "demux_mux_observable._demux.on_subscribe")
@@ -251,6 +251,8 @@ def rule_mx5(ctx: Ctx) -> RuleResult:
              ("rxsci/data/split.py", "split", "split_mux"),
              ("rxsci/data/time_split.py", "time_split", "time_split_mux")]
     for rel, pub, head in heads:
+        if heads_only is not None and pub not in heads_only:
+            continue
         m, fn = ctx.function(rel, pub)
         hm, hfn = ctx.function(rel, head)
         r.instances += 1
@@ -264,6 +266,9 @@ def rule_mx5(ctx: Ctx) -> RuleResult:
             ok = False
             why = "return value is not rx.pipe(head, pipeline, demux_mux_observable(outer))"
             stages = None
+            if v[0] == "call" and v[1] == ("glob", "rx.pipe") and any(isinstance(x, tuple) and x and x[0] == "star" for x in v[2]):
+                raise AnalysisError("%s: %s composes its stages from a list built at run time (%s); MX-5 reads rx.pipe(head, pipeline, demux) and the "
+                                    "written-out application only" % (m.where(fn), pub, show(v)[:80]))
             if v[0] == "call" and v[1] == ("glob", "rx.pipe") and len(v[2]) == 3:
                 stages = v[2]
             elif v[0] == "func" and isinstance(v[1], ast.FunctionDef) and len(m.scopes[v[1]].params) == 1:
@@ -323,7 +328,7 @@ def rule_mx5(ctx: Ctx) -> RuleResult:
                 ok = any(e.k == "assign" and e.name in subj_names and e.value == v[2] for e in p.trace)
             r.ob(ok, lambda: Finding("MX-5", "%s::%s{head-return}" % (rel, head), hm.where(hfn),
                                      "the head factory must return (operator, outer Subject); it returns %s" % show(v), trace_of(p)))
-    r.require_instances(5)
+    r.require_instances(5 if heads_only is None else 1 + len(heads_only))
     return r
 
 
